@@ -477,13 +477,17 @@ func getRound(n float64) float64 {
 		return n
 	}
 
-	if n < -0.5 {
-		n = float64(int(n - 0.5))
-	} else if n > 0.5 {
-		n = float64(int(n + 0.5))
-	} else {
-		n = 0
+	// The integer closest to n.  n-f is computed exactly for every finite
+	// n, so no intermediate rounding can move a value across the .5 boundary
+	// (as n+0.5 would), and no integer conversion can overflow.
+	f := math.Floor(n)
+	d := n - f
+
+	// Ties go toward positive infinity, except that ties below -0.5 keep
+	// rounding away from zero (round(-1.5) = -2) as they always have.
+	if d > 0.5 || (d == 0.5 && n >= -0.5) {
+		return f + 1
 	}
 
-	return n
+	return f
 }
